@@ -53,6 +53,47 @@ type tcase struct {
 var blockSpellings = [][2]string{{"{", "}"}, {"switch(0){case 0:", "}"}, {"if(0){", "}"}, {"try{", "}finally{}"}, {"do{", "}while(0);"},
 	{"switch(0){default:", "}"}, {"if(0);else{", "}"}, {"try{}finally{", "}"}, {"while(0){", "}"}, {"try{}catch{", "}"}, {"{", "}"}}
 
+// shorthandUse: the use item at index ii of its program is spelled `({n});` (every fourth one, rotating with the program)
+func shorthandUse(v, ii int) bool { return v >= 0 && (v+ii)%4 == 3 }
+
+// expectedKeys: the property keys the renamed program must still show: one per shorthand-spelled use that denotes a declared
+// binding (`({a})` becomes `({a: v1_})`; a name bound nowhere keeps its name and stays `({a})`).
+func expectedKeys(c *tcase, v int) []string {
+	keys := []string{}
+	n := 0
+	for ii, it := range c.Prog {
+		switch it.K {
+		case "decl":
+			n++
+		case "use":
+			if shorthandUse(v, ii) && n < len(c.Occ) {
+				if sc, _ := c.Occ[n].B[0].(float64); int(sc) != -99999 {
+					keys = append(keys, it.N)
+				}
+			}
+			n++
+		case "grp":
+			n += 2
+		case "open":
+			if it.N != "" {
+				n++
+			}
+			if it.S == "fn" || it.S == "fx" || it.S == "ar" {
+				for _, p := range it.Ps {
+					n++
+					if p.D != "" {
+						n++
+					}
+				}
+			}
+			if it.C != "" {
+				n++
+			}
+		}
+	}
+	return keys
+}
+
 // Spell writes the program as JavaScript (every block as a plain block).
 func Spell(prog []item) string { return SpellV(prog, -1) }
 
@@ -61,7 +102,7 @@ func SpellV(prog []item, v int) string {
 	var b strings.Builder
 	var closers []string
 	nblk := 0
-	for _, it := range prog {
+	for ii, it := range prog {
 		switch it.K {
 		case "decl":
 			if it.D == "const" {
@@ -70,7 +111,11 @@ func SpellV(prog []item, v int) string {
 				b.WriteString(it.D + " " + it.N + ";")
 			}
 		case "use":
-			b.WriteString(it.N + ";")
+			if shorthandUse(v, ii) {
+				b.WriteString("({" + it.N + "});") // the use as a shorthand property: key and value written once
+			} else {
+				b.WriteString(it.N + ";")
+			}
 		case "grp":
 			if it.Eq {
 				b.WriteString("(" + it.A + "=" + it.B + ");")
@@ -319,7 +364,7 @@ var fresh = regexp.MustCompile(`^v([0-9]+)_$`)
 
 // observe renames every declared Var of ast, prints the tree and returns (printed text, labels of the identifier
 // occurrences in order: k>0 for the k-th declared Var, -(name index) for names that stayed as they were, uses pairs).
-func observe(ast *js.AST, names []string) (string, []int, [][2]int) {
+func observe(ast *js.AST, names []string) (string, []int, [][2]int, []string) {
 	roots := []*js.Var{}
 	freeUses := map[string]int{} // name -> sum of Uses over the undeclared Vars of that name
 	seen := map[*js.Var]bool{}
@@ -343,12 +388,29 @@ func observe(ast *js.AST, names []string) (string, []int, [][2]int) {
 	labels := []int{}
 	count := map[int]int{}
 	l := js.NewLexer(parse.NewInputString(text))
+	type tok struct {
+		tt js.TokenType
+		d  []byte
+	}
+	var toks []tok
 	for {
 		tt, d := l.Next()
 		if tt == js.ErrorToken {
 			break
 		}
+		if tt == js.WhitespaceToken || tt == js.LineTerminatorToken {
+			continue
+		}
+		toks = append(toks, tok{tt, append([]byte{}, d...)})
+	}
+	keys := []string{}
+	for ti, t := range toks {
+		tt, d := t.tt, t.d
 		if tt != js.IdentifierToken || string(d) == "m" {
+			continue
+		}
+		if ti+1 < len(toks) && toks[ti+1].tt == js.ColonToken {
+			keys = append(keys, string(d)) // a property key, not an identifier reference
 			continue
 		}
 		if m := fresh.FindSubmatch(d); m != nil {
@@ -374,10 +436,10 @@ func observe(ast *js.AST, names []string) (string, []int, [][2]int) {
 	// "every Var's Uses": also the undeclared variables, per name (they are one Var of the outermost scope each)
 	for i, n := range names {
 		if u, ok := freeUses[n]; ok || count[-(i+1)] > 0 {
-			uses = append(uses, [2]int{u, count[-(i+1)]})
+			uses = append(uses, [2]int{u, count[-(i + 1)]})
 		}
 	}
-	return text, labels, uses
+	return text, labels, uses, keys
 }
 
 type summary struct {
@@ -397,7 +459,8 @@ var names = []string{"a", "b", "c", "d"}
 
 // runCase executes one generated program; returns whether the observation differs from the expectation (cheap pre-check;
 // the verdict is the trace specification's).
-func runCase(w *tr.Writer, c *tcase, src string, opts js.Options) bool {
+func runCase(w *tr.Writer, c *tcase, src string, opts js.Options, v int) bool {
+	xkeys := expectedKeys(c, v)
 	// expectation: canonical labels of the bindings in source order
 	exp := []int{}
 	ids := map[string]int{}
@@ -461,10 +524,10 @@ func runCase(w *tr.Writer, c *tcase, src string, opts js.Options) bool {
 				ev2["out"], ev2["panic"] = "panic", fmt.Sprint(x)
 			}
 		}()
-		t, labels, uses := observe(ast, names)
+		t, labels, uses, keys := observe(ast, names)
 		text = t
-		ev2["obs"], ev2["uses"] = labels, uses
-		if !iso(exp, labels) {
+		ev2["obs"], ev2["uses"], ev2["keys"], ev2["xkeys"] = labels, uses, keys, xkeys
+		if !iso(exp, labels) || fmt.Sprint(keys) != fmt.Sprint(xkeys) {
 			differs = true
 		}
 		for _, u := range uses {
@@ -492,7 +555,7 @@ func runCase(w *tr.Writer, c *tcase, src string, opts js.Options) bool {
 			ev3["obs"] = []int{}
 			return
 		}
-		_, labels2, _ := observe(a2, append([]string{}, names...))
+		_, labels2, _, _ := observe(a2, append([]string{}, names...))
 		// names that stayed free keep their index; fresh names of the first round are now ordinary declared names
 		ev3["obs"] = labels2
 		if !iso(exp, labels2) {
@@ -567,7 +630,7 @@ func Replay(args []string) {
 		tid++
 		w.Begin(tid)
 		// the scoping of the tree does not depend on Options: every other program is parsed with WhileToFor
-		d := runCase(w, &c, src, js.Options{WhileToFor: (line/len(blockSpellings))%2 == 1})
+		d := runCase(w, &c, src, js.Options{WhileToFor: (line/len(blockSpellings))%2 == 1}, line)
 		if d {
 			sum.Mismatches++
 		}
@@ -612,8 +675,8 @@ func Src(args []string) {
 			fmt.Printf("%s\n  ERR %v\n", s, strings.SplitN(err.Error(), "\n", 2)[0])
 			continue
 		}
-		text, labels, uses := observe(ast, names)
-		fmt.Printf("%s\n  %s\n  labels=%v uses=%v\n", s, text, labels, uses)
+		text, labels, uses, keys := observe(ast, names)
+		fmt.Printf("%s\n  %s\n  labels=%v uses=%v keys=%v\n", s, text, labels, uses, keys)
 	}
 }
 
